@@ -133,3 +133,51 @@ Definition tidy_list (l : list A) : list A := sort_by leb l.
 Definition tidy_map (m : list (N * list A)) : list (N * list A) :=
   map (fun '(k, l) => (k, tidy_list l)) (filter (fun '(_, l) => match l with [] => false | _ => true end) m).
 End Tidy.
+
+(* ---- the `[policy]` table keys: `name` or `name:version` (serialization.rs mod policy) ----
+   Names and versions are character strings here (lists of code points): the point of this part IS the text.
+   A VetVersion is displayed as its semver text, followed by `@git:<rev>` when it carries a revision.
+   Which of the two the key is built from is re-read from the source (Extracted.POLICY_KEY_USES_FULL_VERSION). *)
+Require Import Extracted.
+Definition chr := N.
+Definition COLON : chr := 58.
+Definition AT : chr := 64.
+Definition GIT_TAG : list chr := [64; 103; 105; 116; 58].     (* "@git:" *)
+Record vetver := { vv_semver : list chr; vv_git : option (list chr) }.
+Definition show_vetver (v : vetver) : list chr :=
+  vv_semver v ++ (if POLICY_KEY_USES_FULL_VERSION then match vv_git v with Some r => GIT_TAG ++ r | None => [] end else []).
+Definition pkey_encode (name : list chr) (ver : option vetver) : list chr :=
+  match ver with None => name | Some v => name ++ COLON :: show_vetver v end.
+(* str::split_once(":") *)
+Fixpoint split_colon (l : list chr) : option (list chr * list chr) :=
+  match l with
+  | [] => None
+  | c :: r => if N.eqb c COLON then Some ([], r)
+              else match split_colon r with Some (a, b) => Some (c :: a, b) | None => None end
+  end.
+(* "<semver>[@git:<rev>]" -> VetVersion (format.rs FromStr for VetVersion: split at the first '@') *)
+Fixpoint split_at (l : list chr) : list chr * option (list chr) :=
+  match l with
+  | [] => ([], None)
+  | c :: r => if N.eqb c AT then ([], Some r) else let '(a, b) := split_at r in (c :: a, b)
+  end.
+Fixpoint strip_prefix (p l : list chr) : option (list chr) :=
+  match p, l with
+  | [], _ => Some l
+  | x :: p', y :: l' => if N.eqb x y then strip_prefix p' l' else None
+  | _ :: _, [] => None
+  end.
+Definition parse_vetver (l : list chr) : option vetver :=
+  match split_at l with
+  | (s, None) => Some {| vv_semver := s; vv_git := None |}
+  | (s, Some rest) => match strip_prefix [103; 105; 116; 58] rest with     (* "git:" *)
+                      | Some r => Some {| vv_semver := s; vv_git := Some r |}
+                      | None => None
+                      end
+  end.
+Definition pkey_decode (k : list chr) : option (list chr * option vetver) :=
+  match split_colon k with
+  | None => Some (k, None)
+  | Some (n, v) => match parse_vetver v with Some vv => Some (n, Some vv) | None => None end
+  end.
+Definition no_chr (c : chr) (l : list chr) : bool := negb (existsb (N.eqb c) l).
